@@ -9,7 +9,7 @@ Emboss/Spec/View.lean; lemmas: Emboss/Lemmas/{ExprMono,ViewMono,ViewMono2,Synth}
 import Emboss.Lemmas.ViewMono2
 import Emboss.Lemmas.Synth
 import Emboss.Lemmas.Locality
-import Emboss.Lemmas.ViewRefEquals
+import Emboss.Lemmas.ViewRefArray
 namespace Emboss.View
 open Emboss.ViewSpec
 
@@ -414,6 +414,35 @@ theorem C01_R_size_is_max_end_partial (m : Module) (w : SView)
     | none => rw [hsz] at hv; cases hv
     | some q => rw [hsz] at hv; simp only [Option.map_some, Option.some.injEq, Val.int.injEq] at hv; rw [hv]
 
+/-- **Arrays of scalars** (constant or dynamic size / element count), soundness: every element
+the generated view reads (`x()[i].Ok()`, `i < ElementCount()`; also in a truncated array) is an
+`elem` fact of R — the value of the element's bytes at `start + i·elementsize` of the message —
+and when the accessor's storage was not clamped (the array's whole extent is inside the window)
+`ElementCount()` is R's `count` fact `size / elementsize`.  (`arrElem` / `arrCount`,
+Model/ViewObs.lean, are the expressions `obsType` prints per element and as `n<count>`.) -/
+theorem C01_array_refines_R_partial (m : Module) (hm : refModule m = true) (w : SView)
+    (href : refStruct m w.sd = true) (hw : viewWF w = true) (n : Nat) (x : String) (f : Field)
+    (hf : w.sd.field x = some f) :
+    (∀ i v, arrElem (G m n) w f i = some v → RFact m w (.elem x i v)) ∧
+    (∀ start size k bits req es bo c st z,
+      f.kind = .phys start size (.array (.scalar k bits req) es) bo →
+      arrCount (G m n) w f = some c → physStorage (G m n) w f start size = some st →
+      evalInt (envOf (G m n) w none) size = some z → st.ok = true ∧ st.size = z.toNat →
+      RFact m w (.count x c)) :=
+  ⟨fun _ _ h => arrElem_sound href hw (G_sound m hm n w href hw) hf h,
+   fun _ _ _ _ _ _ _ _ _ _ hk h hst hz hfull =>
+     arrCount_sound href hw (G_sound m hm n w href hw) hf hk h hst hz hfull⟩
+
+/-- … and completeness: R's `count` and `elem` facts are what the generated view reports once
+the fuel covers the field. -/
+theorem C01_R_array_reported_by_G_partial (m : Module) (hm : refModule m = true)
+    (hwfm : moduleWF m = true) (hlocm : reqLocalModule m = true) (w : SView)
+    (href : refStruct m w.sd = true) (hloc : reqLocal w.sd = true) (hw : viewWF w = true) (n : Nat)
+    (x : String) (f : Field) (hf : w.sd.field x = some f) (hn : need m (n + 1) w.sd [x] = true) :
+    (∀ c, RFact m w (.count x c) → arrCount (G m n) w f = some c) ∧
+    (∀ i v, RFact m w (.elem x i v) → arrElem (G m n) w f i = some v) :=
+  array_complete m hm hwfm hlocm n w href hloc hw hf hn
+
 /-- `C01_constants` (partial): `$max_size_in_*` / `$min_size_in_*` (and every other virtual field
 whose value the compiler folded to a literal, without `[requires]`) read the same constant on
 **every** view — any buffer (the empty one included), any parameters, even the null view of an
@@ -550,6 +579,28 @@ example : (G exNest 6).has (rootView exOuter [] [2, 255, 7, 165]) ["n"] = some t
     (RFact.pres { read := fun _ => none, has := fun _ => none, param := fun _ => none, lv := none }
       (f := exOuterN) (by rfl) (by intro p v h; cases h) (by intro p c h; cases h)
       (by intro n v h; cases h) rfl (by decide)) (by decide)
+
+def exOuterArr : Field :=
+  { name := "arr", anon := false, cond := .const (.bool true),
+    kind := .phys (.op .add (.cons (.ref ["n"]) (.cons (.const (.int 2)) .nil))) (.ref ["n"])
+      (.array (.scalar .uint 8 none) 1) .le }
+
+/-- non-vacuity of the array theorems: `arr` (`n+2 [+n] UInt:8[]`, dynamic element count) over
+`02 ff 07 a5 0b 0c` has 2 elements 11, 12; over the truncated `02 ff 07 a5 0b` the model still
+reads element 0 (= 11, an R fact by the theorem) and reports the clamped count 1, which is *not*
+claimed by R (the count hypothesis `st.size = z` fails). -/
+example :
+    exOuter.field "arr" = some exOuterArr ∧ need exNest 6 exOuter ["arr"] = true ∧
+    arrCount (G exNest 5) (rootView exOuter [] [2, 255, 7, 165, 11, 12]) exOuterArr = some 2 ∧
+    arrElem (G exNest 5) (rootView exOuter [] [2, 255, 7, 165, 11, 12]) exOuterArr 1 = some (.int 12) ∧
+    arrElem (G exNest 5) (rootView exOuter [] [2, 255, 7, 165, 11, 12]) exOuterArr 2 = none ∧
+    arrCount (G exNest 5) (rootView exOuter [] [2, 255, 7, 165, 11]) exOuterArr = some 1 ∧
+    arrElem (G exNest 5) (rootView exOuter [] [2, 255, 7, 165, 11]) exOuterArr 0 = some (.int 11) := by
+  refine ⟨by rfl, by decide, by decide, by decide, by decide, by decide, by decide⟩
+
+example : RFact exNest (rootView exOuter [] [2, 255, 7, 165, 11]) (.elem "arr" 0 (.int 11)) :=
+  (C01_array_refines_R_partial exNest (by decide) _ (by decide) (by decide) 5 "arr" exOuterArr (by rfl)).1
+    _ _ (by decide)
 
 end Emboss.View
 
